@@ -656,3 +656,34 @@ def strip_passthrough(e):
             e = e[2][0]
         else:
             return e
+
+
+def natural_loops(body):
+    """header block -> set of blocks of the natural loop(s) with that header (back edge u->h where h dominates u)."""
+    succ, pred = body.cfg
+    live = body.live_blocks()
+    res = {}
+    for u in live:
+        for h in succ[u]:
+            if h in live and body.block_dominates(h, u):
+                blocks = {h, u}
+                st = [u]
+                while st:
+                    x = st.pop()
+                    if x == h:
+                        continue
+                    for p_ in pred[x]:
+                        if p_ in live and p_ not in blocks:
+                            blocks.add(p_)
+                            st.append(p_)
+                res.setdefault(h, set()).update(blocks)
+    return res
+
+
+def innermost_loop(body, block):
+    """(header, blocks) of the smallest natural loop containing `block`, or None."""
+    cands = [(len(v), h, v) for h, v in natural_loops(body).items() if block in v]
+    if not cands:
+        return None
+    cands.sort(key=lambda x: (x[0], x[1]))
+    return cands[0][1], cands[0][2]
